@@ -108,6 +108,34 @@ int main() {
       delete vs[0]; delete vs[1];
     }
   }
+  // (5) storing under (b,a) must mean the same whatever was stored for the pair before: (b,a,dir,gap) into a matrix that already holds
+  //     a constraint given as (a,b) -- or whose pair was last looked up as (a,b) -- against the same call on a fresh matrix
+  for (int hist = 0; hist < 3; ++hist) for (int sd = 0; sd < 8; ++sd) {
+    vpsc::Constraint *res[2][2] = {{0, 0}, {0, 0}};
+    std::vector<double> sig[2];
+    for (int run = 0; run < 2; ++run) {      // run 0: fresh matrix; run 1: with history
+      Graph G; Node_SP a = Node::allocate(), b = Node::allocate();
+      a->setDims(2, 4); b->setDims(4, 2); a->setCentre(0, 0); b->setCentre(0, 0); G.addNode(a); G.addNode(b); G.updateColaGraphRep();
+      SepMatrix &m = G.getSepMatrix(); ColaGraphRep &cgr = G.getColaGraphRep();
+      id_type lo = a->id() < b->id() ? a->id() : b->id(), hi = a->id() < b->id() ? b->id() : a->id();
+      if (run == 1) {
+        if (hist == 0) m.addSep(lo, hi, GapType::CENTRE, SepDir::EAST, SepType::INEQ, 7);
+        else if (hist == 1) { m.addSep(hi, lo, GapType::CENTRE, SepDir::EAST, SepType::INEQ, 7); m.addSep(lo, hi, GapType::CENTRE, SepDir::NORTH, SepType::INEQ, 3); }
+        else { m.addSep(lo, hi, GapType::CENTRE, SepDir::EAST, SepType::INEQ, 7); m.free(lo, hi); }
+      }
+      // the call under test, ids in reverse order, a cardinal direction (sets both dimensions, so nothing of the history remains in the record)
+      m.addSep(hi, lo, GapType::CENTRE, (SepDir)(sd % 4), sd < 4 ? SepType::INEQ : SepType::EQ, 20);
+      size_t ilo = cgr.id2ix.at(lo);
+      for (int d = 0; d < 2; ++d) {
+        vpsc::Variables vs; vpsc::Constraints cs; vpsc::Rectangles bbs;
+        vs.push_back(new vpsc::Variable(0, 0)); vs.push_back(new vpsc::Variable(1, 0));
+        m.generateSeparationConstraints((vpsc::Dim)d, vs, cs, bbs);
+        for (size_t k = 0; k < cs.size(); ++k) { sig[run].push_back(d); sig[run].push_back((size_t)cs[k]->left->id == ilo ? 0 : 1); sig[run].push_back(cs[k]->gap); sig[run].push_back(cs[k]->equality); delete cs[k]; }
+        delete vs[0]; delete vs[1];
+      }
+    }
+    if (sig[0] != sig[1]) { if (bad < 8) printf("addSep(larger id, smaller id, dir %d, %s, 20) means something else after history %d for that pair than on a fresh matrix (flippedRetrieval is stale)\n", sd % 4, sd < 4 ? ">=" : "==", hist); bad++; }
+  }
   if (bad) { printf("REPRODUCED: %d disagreement(s)\n", bad); return 1; }
   printf("not reproduced\n"); return 0;
 }
@@ -206,6 +234,35 @@ def jobs(tier):
                   slices=[gs, cctor, dim], replay=replay_c18, flags=["--object-bits", "12"],
                   domain="every SepPair (all doubles as gaps incl. -0.0), both dimensions; id2ix.at / Rectangle::width,height / getExtraBdryGap behind contracts",
                   expect=[r'w_genSep\.postcondition', r'precondition']))
+    # ---------------- SepMatrix::getSepPair: the pair handed out is stored under (min,max) and its flippedRetrieval flag says whether THIS
+    # retrieval named the ids in reverse -- for a pair that already exists as much as for a new one (addSep/addFixedRelativeSep/getCardinalDir
+    # negate on that flag: "storing a constraint under (a,b) or its negation under (b,a) is equivalent")
+    gsp = slice_func(CC, r'^SepPair_SP &SepMatrix::getSepPair\(id_type id1, id_type id2\)', "SepMatrix::getSepPair")
+    spctor = slice_lines(CH, r'^\s*SepPair\(void\) : src\(0\), tgt\(0\),', 1, "SepPair default constructor")
+    gsp_text = subst(gsp, [(r'throw std::runtime_error\("Cannot set a constraint between a node and itself\."\);', '{ verif_thrown = 1; return verif_no_pair; }', 1),
+                           (r'std::make_shared<SepPair>\(\)', 'verif_make_shared_SepPair()', 2),
+                           # front-end workaround: an overloaded operator-> result is "not an lvalue" for goto-cc; the stand-in's pointer is named directly
+                           (r'\bsp->', 'sp.p->', 6)])
+    sp_deps = ("class SepMatrix;\nstruct ColaGraphRep;\n")
+    gsp_pre = pre0.replace("@DIALECT_DEPS@", sp_deps).replace("@SEPPAIR_EXTRA@", spctor.text)
+    gsp_cxx = (base + 'extern "C" { void *w_sparse_slot(void *m, unsigned a, unsigned b); void *malloc(size_t); }\n' + gsp_pre +
+               "namespace dialect {\n"
+               "// stand-in for std::shared_ptr<SepPair> (two words: object, control block); only `== nullptr`, `->` and assignment from make_shared are used\n"
+               "struct SepPair_SP { SepPair *p; void *ctl; SepPair *operator->() const { return p; } bool operator==(const void *q) const { return p == q; } };\n"
+               "// stand-in for std::map<id_type, std::map<id_type, SepPair_SP>>: operator[][] forwards to a contract that hands out the slot\n"
+               "struct VerifRow { void *m; id_type a; SepPair_SP &operator[](id_type b) { return *(SepPair_SP *)w_sparse_slot(m, a, b); } };\n"
+               "struct VerifSparse { VerifRow operator[](id_type a) { VerifRow r; r.m = (void *)this; r.a = a; return r; } };\n"
+               "class SepMatrix { public: SepPair_SP &getSepPair(id_type id1, id_type id2); VerifSparse m_sparseLookup; };\n"
+               "static SepPair_SP verif_no_pair;\n"
+               "// std::make_shared<SepPair>() substituted (must-fire, 2 hits): malloc + the REAL default constructor on a temporary + field-wise copy of what it initialises\n"
+               "static SepPair_SP verif_make_shared_SepPair() { SepPair t; SepPair *p = (SepPair *)malloc(sizeof(SepPair)); __CPROVER_assume(p != 0);\n"
+               "  p->src = t.src; p->tgt = t.tgt; p->xgt = t.xgt; p->ygt = t.ygt; p->xst = t.xst; p->yst = t.yst; p->xgap = t.xgap; p->ygap = t.ygap; SepPair_SP r; r.p = p; r.ctl = 0; return r; }\n" +
+               gsp_text + "\n}\n"
+               'extern "C" void *w_getSepPair(void *m, unsigned id1, unsigned id2) { return (void *)&((dialect::SepMatrix *)m)->getSepPair(id1, id2); }\n')
+    js.append(Job("getSepPair_flag", "U", spec, "h_getSepPair", cxx=gsp_cxx, enforce="w_getSepPair", replace=["w_sparse_slot"], defines=["JOB_getSepPair"],
+                  slices=[gsp, spctor], replay=replay_c18, flags=["--object-bits", "12"],
+                  domain="every pair of distinct ids in either order, pair already stored (with any stale flag) or not; the sparse map behind a contract that demands ordered keys",
+                  expect=[r'w_getSepPair\.postcondition', r'w_sparse_slot\.precondition|precondition']))
     return js
 
 
@@ -223,8 +280,12 @@ ASSUMPTIONS = [
     "commutation and addSep-flip jobs are complete proofs over the stated exact domain only (integer-valued centres/gaps incl. both zeros, even sizes, |v| <= bound): outside it "
     "u+g<=v and u<=v-g can differ by one rounding, so the exact domain is part of the statement",
     "genSep: for BDRY gaps only the choice of left/right/equality is claimed for all doubles; the BDRY magnitude (gap + half extents + extra gap) is floating-point addition and is not claimed",
-    "NOT decided (residue): TGLF writer/reader round trip (iostreams), SepMatrix lookup and flippedRetrieval bookkeeping (std::map), SepMatrix::transform applying to every pair",
+    "getSepPair_flag: std::shared_ptr<SepPair> and the map-of-maps are replaced by stand-ins (a two-word pointer struct; operator[][] forwarding to a contract that hands out "
+    "the slot and demands ordered keys); `sp->` is rewritten `sp.p->` (goto-cc does not accept an overloaded operator-> result as an lvalue); std::make_shared substituted by "
+    "malloc + the real default constructor; checkSepPair (which also writes the flag) and the callers' use of the flag are by inspection",
+    "NOT decided (residue): TGLF writer/reader round trip (iostreams; seeds C18-2 and C18-4 are missed for this reason), SepMatrix::transform applying to every pair, free/clear bookkeeping",
 ]
 EXPLANATION = ("Contracts on the real dialect::SepPair: transform realises the complete multiplication table of the symmetry group of the square (49 products, records compared "
                "bit for bit, all doubles); transform commutes with geometry record by record (84 cases: 7 transforms x 2 axes x 3 relations x 2 gap types); addSep under (a,b) "
-               "with g equals addSep under (b,a) with -g; generateSeparationConstraint hands VPSC exactly the record's meaning (sign bit of the gap, incl. -0.0).")
+               "with g equals addSep under (b,a) with -g, and SepMatrix::getSepPair hands out the pair with a flag that describes the current retrieval whether or not the pair "
+               "existed (so the negation is applied on the id order of THIS call); generateSeparationConstraint hands VPSC exactly the record's meaning (sign bit of the gap, incl. -0.0).")
